@@ -29,7 +29,12 @@ package messagequeue
 //@            b.Builder.completedResponses[*], b.Builder.extensions[*], b.Builder.outgoingResponses[*], alloc
 //@   ensures b.Builder.blkSize <= old(b.Builder.blkSize) && result == old(b.Builder.blkSize) - b.Builder.blkSize
 
+//@ -- position of a builder in a queue of distinct builders (choice function; sound because seqOK makes them distinct)
+//@ fn posIn(bs []*Builder, x ref) int
+//@ lemmadef posIn_elem(bs []*Builder, i int):
+//@   seqOK(bs) && slo(bs) <= i && i < shi(bs) ==> posIn(bs, sat(bs, i)) == i
 //@ -- C15: what scrubbing frees is the sum over ALL builders of what each of them gave up
+//@ -- C17: the builders that stay queued keep their order (messages leave in the order they were queued)
 //@ func MessageQueue.scrubResponses
 //@   requires buildersOK(mq)
 //@   modifies mq.builders, Builder.responseStreams, Builder.subscribers, Builder.blockData, alloc,
@@ -39,6 +44,13 @@ package messagequeue
 //@   ensures result == SeqSum2(old(mq.builders), old(len(mq.builders)), Builder.Builder, old(gsmsg.Builder.blkSize))
 //@                    - SeqSum2(old(mq.builders), old(len(mq.builders)), Builder.Builder, gsmsg.Builder.blkSize)
 //@   ensures buildersOK(mq)
+//@   ensures forall a int :: slo(mq.builders) <= a && a < shi(mq.builders) ==> slo(old(mq.builders)) <= posIn(old(mq.builders), sat(mq.builders, a)) && posIn(old(mq.builders), sat(mq.builders, a)) < shi(old(mq.builders))
+//@               && sat(old(mq.builders), posIn(old(mq.builders), sat(mq.builders, a))) == sat(mq.builders, a)
+//@   ensures forall a int, b int :: slo(mq.builders) <= a && a < b && b < shi(mq.builders) ==> posIn(old(mq.builders), sat(mq.builders, a)) < posIn(old(mq.builders), sat(mq.builders, b))
+//@   use posIn_elem(old(mq.builders), slo(old(mq.builders)) + idx1)
+//@   loop 1 invariant forall a int :: slo(newBuilders) <= a && a < shi(newBuilders) ==> slo(old(mq.builders)) <= posIn(old(mq.builders), sat(newBuilders, a)) && posIn(old(mq.builders), sat(newBuilders, a)) < slo(old(mq.builders)) + idx1
+//@               && sat(old(mq.builders), posIn(old(mq.builders), sat(newBuilders, a))) == sat(newBuilders, a)
+//@   loop 1 invariant forall a int, b int :: slo(newBuilders) <= a && a < b && b < shi(newBuilders) ==> posIn(old(mq.builders), sat(newBuilders, a)) < posIn(old(mq.builders), sat(newBuilders, b))
 //@   loop 1 invariant mq.allocator != nil && mq.eventPublisher != nil && errEmptyMessage != nil
 //@   loop 1 invariant forall j int, i int :: slo(newBuilders) <= j && j < shi(newBuilders) && slo(old(mq.builders)) + idx1 <= i && i < shi(old(mq.builders)) ==>
 //@              sat(newBuilders, j) != sat(old(mq.builders), i) && sat(newBuilders, j).Builder != sat(old(mq.builders), i).Builder
